@@ -21,8 +21,8 @@ CONFIG = {
     "quick": {"flavours": ["real", "complex"], "shards": 8, "examples": 600, "min_nontrivial": 50, "budget_s": 120},
     "thorough": {"flavours": ["real", "complex"], "shards": 16, "examples": 1500, "min_nontrivial": 1000, "budget_s": 3000},
 }
-REQUIRED_CLASSES = {"quick": ["offdiag-one-block", "degenerate", "complex", "n-or-sz-broken"],
-                    "thorough": ["offdiag-one-block", "degenerate", "complex", "n-or-sz-broken", "cold"]}
+REQUIRED_CLASSES = {"quick": ["offdiag-one-block", "degenerate", "complex", "n-or-sz-broken", "gfc-all", "gfc-on-demand", "gfc-set-listed"],
+                    "thorough": ["offdiag-one-block", "degenerate", "complex", "n-or-sz-broken", "cold", "gfc-all", "gfc-on-demand", "gfc-set-listed"]}
 
 
 @st.composite
@@ -32,7 +32,13 @@ def strategy_(draw, tier):
     N = M.n_modes(mdl["sites"])
     pairs = draw(st.lists(st.tuples(st.integers(0, N - 1), st.integers(0, N - 1)), min_size=1, max_size=4, unique=True))
     ns = draw(st.lists(gen.mats_st(), min_size=1, max_size=4, unique=True))
-    return {"model": mdl, "pairs": [list(p) for p in pairs], "n": ns}
+    # the GF container is filled either with all components (default) or with an explicit index set; pairs outside the set are
+    # then obtained on demand
+    if draw(st.integers(0, 3)) == 0:
+        gset = draw(st.lists(st.tuples(st.integers(0, N - 1), st.integers(0, N - 1)), min_size=1, max_size=4, unique=True))
+    else:
+        gset = []
+    return {"model": mdl, "pairs": [list(p) for p in pairs], "n": ns, "gfc_set": [list(p) for p in gset]}
 
 
 def strategy(tier):
@@ -43,7 +49,8 @@ def execute(case, ctx):
     mdl = case["model"]
     ns = case["n"]
     nsel = "n %d %s" % (len(ns), " ".join(str(n) for n in ns))
-    queries = [("ops", "ops 0"), ("gfc", "gfc 0")]
+    gset = [tuple(p) for p in case.get("gfc_set", [])]
+    queries = [("ops", "ops 0"), ("gfc", "gfc %d %s" % (len(gset), " ".join("%d %d" % p for p in gset)))]
     for k, (i, j) in enumerate(case["pairs"]):
         for src in ("sa", "ct", "gfc"):
             queries.append((("gf", src, k), "gf %s %d %d %s" % (src, i, j, nsel)))
@@ -85,8 +92,13 @@ def execute(case, ctx):
             if a is None or "exc" in a:
                 return Result("fail", classes, True, dict(run.describe(), what="gf %s %d %d threw: %s" % (src, i, j, a and a["exc"])), "exc:gf")
             vals[src] = [cx(v) for v in a["n"]]
-            if src == "gfc" and not a.get("listed"):
-                return Result("fail", classes, True, dict(run.describe(), what="after prepareAll()/computeAll() without an index set the container of all components does not hold G_%d%d" % (i, j)), "container-missing")
+            if src == "gfc":
+                should = (not gset) or ((i, j) in gset)
+                if should and not a.get("listed"):
+                    return Result("fail", classes, True, dict(run.describe(), what="after prepareAll()/computeAll() the container does not hold the requested component G_%d%d" % (i, j)), "container-missing")
+                if not should and a.get("listed"):
+                    return Result("fail", classes, True, dict(run.describe(), what="the container filled with the index set %s lists G_%d%d" % (gset, i, j)), "container-extra")
+                classes.append("gfc-all" if not gset else ("gfc-set-listed" if should else "gfc-on-demand"))
         anynz = False
         for q, n in enumerate(ns):
             z = 1j * (2 * n + 1) * math.pi / beta
